@@ -32,7 +32,7 @@ func (h *Handler) findHuntByIP(ip netip.Addr) (packet.Addr, bool) {
 //  2. start spoof goroutine to which will continuously spoof the client ARP table
 //
 func (h *Handler) StartHunt(addr packet.Addr) (packet.HuntStage, error) {
-	if len(addr.MAC) != packet.EthAddrLen { // nil, empty or short: there is no station to send to
+	if len(addr.MAC) != packet.EthAddrLen || !packet.IsUnicastMAC(addr.MAC) { // nil, empty or short: there is no station to send to; a group address is every station
 		return packet.StageNoChange, packet.ErrInvalidMAC
 	}
 	if !addr.IP.Is4() {
